@@ -8,6 +8,8 @@ code as it stands.
 -/
 import Pithos.Model.ProxyTrust
 import Pithos.Spec.ProxyTrust
+import Pithos.Model.ProxySettings
+import Pithos.Spec.ProxySettings
 
 namespace Pithos.C32
 open Pithos.NetParse Pithos.ProxyTrust Pithos.ProxyTrust.Spec
@@ -165,5 +167,176 @@ example :
     remoteIP "[::ffff:10.1.2.3]:9".toList = some (mapped 0x0A010203) ∧
     parseIP "2001:db8::1".toList = some 0x20010db8000000000000000000000001 := by
   decide
+
+/-! ## The configuration glue (`Pithos.ProxySettings`): layered settings → authorizer options
+
+Layers are listed in increasing precedence (`mergeSettings(cmdArgs, env)`: command line, then
+environment). `mergeFixed = true` is fixes/C32-settings-merge-keeps-cli-slices.patch,
+`keepUnusable = true` is fixes/C32-settings-separators-only-proxy-list.patch. -/
+
+section Settings
+open Pithos.Ascii Pithos.ProxySettings
+
+/-- "Later `some` wins" over a list of optional values. -/
+def override {α : Type} (a x : Option α) : Option α := match x with | some v => some v | none => a
+
+theorem foldl_override {α : Type} (xs : List (Option α)) (acc : Option α) :
+    xs.foldl override acc = ((xs.reverse.find? (·.isSome)).getD none).or acc := by
+  induction xs generalizing acc with
+  | nil => simp
+  | cons x xs ih =>
+    rw [List.foldl_cons, ih, List.reverse_cons, List.find?_append]
+    cases hf : xs.reverse.find? (·.isSome) with
+    | some l =>
+      have hl : l.isSome = true := by simpa using List.find?_some hf
+      cases l with
+      | none => simp at hl
+      | some v => simp
+    | none => cases x <;> simp [override]
+
+theorem merge_trust_foldl (r : Bool) (ls : List Layer) (acc : Layer) :
+    (ls.foldl (mergeOne r) acc).trust = (ls.map (·.trust)).foldl override acc.trust := by
+  induction ls generalizing acc with
+  | nil => rfl
+  | cons l ls ih => rw [List.foldl_cons, ih]; cases h : l.trust <;> simp [mergeOne, override, h]
+
+theorem merge_list_foldl (ls : List Layer) (acc : Layer) :
+    (ls.foldl (mergeOne true) acc).list = (ls.map (·.list)).foldl override acc.list := by
+  induction ls generalizing acc with
+  | nil => rfl
+  | cons l ls ih => rw [List.foldl_cons, ih]; cases h : l.list <;> simp [mergeOne, override, h]
+
+/-- **effective_list_is_highest_layer_that_sets_it** (repaired merge), for any number of layers:
+the merged trusted-proxy list is the list of the highest-precedence layer that sets one, and is
+unset only if no layer sets it. -/
+theorem effective_list_is_highest_layer_that_sets_it (ls : List Layer) :
+    (merge true ls).list = ((ls.map (·.list)).reverse.find? (·.isSome)).getD none := by
+  simp [merge, merge_list_foldl, foldl_override]
+
+/-- The same for the trust switch — in both variants of the merge (pointer fields were right). -/
+theorem effective_trust_is_highest_layer_that_sets_it (r : Bool) (ls : List Layer) :
+    (merge r ls).trust = ((ls.map (·.trust)).reverse.find? (·.isSome)).getD none := by
+  simp [merge, merge_trust_foldl, foldl_override]
+
+/-- **configured_never_replaced_by_unconfigured** (repaired merge): if any layer sets a list, the
+merged settings carry a list. -/
+theorem configured_never_replaced_by_unconfigured (ls : List Layer)
+    (h : ∃ l ∈ ls, l.list.isSome = true) : (merge true ls).list.isSome = true := by
+  rw [effective_list_is_highest_layer_that_sets_it]
+  obtain ⟨l, hl, hs⟩ := h
+  have hex : ((ls.map (·.list)).reverse.find? (·.isSome)).isSome = true := by
+    rw [List.find?_isSome]
+    exact ⟨l.list, by simpa using ⟨l, hl, rfl⟩, hs⟩
+  cases hf : (ls.map (·.list)).reverse.find? (·.isSome) with
+  | none => rw [hf] at hex; simp at hex
+  | some v => simpa using List.find?_some hf
+
+/-- The merge as it stands: the list is whatever the LAST layer says — set or not. -/
+theorem asis_list_is_last_layer (ls : List Layer) :
+    (merge false ls).list = ls.getLast?.bind (·.list) := by
+  have : ∀ acc : Layer, (ls.foldl (mergeOne false) acc).list =
+      match ls.getLast? with | some l => l.list | none => acc.list := by
+    induction ls with
+    | nil => intro acc; rfl
+    | cons l ls ih =>
+      intro acc
+      rw [List.foldl_cons, ih]
+      cases ls with
+      | nil => simp [mergeOne]
+      | cons m ms =>
+        rw [List.getLast?_cons_cons]
+        cases hg : (m :: ms).getLast? with
+        | none => simp at hg
+        | some x => simp
+  rw [merge, this]
+  cases ls.getLast? <;> simp
+
+/-- **End to end** (everything repaired), for any layers: when the winning layer configures a
+non-empty list `w`, a request whose exposed client IP / scheme differs from the peer's comes from a
+peer inside a valid CIDR of `w` — of the winning layer, not of a shadowed one — with trust on. -/
+theorem settings_end_to_end (ls : List Layer) (w : List (List Char)) (hw : w ≠ [])
+    (hwin : ((ls.map (·.list)).reverse.find? (·.isSome)).getD none = some w) (req : Req)
+    (h : resolve true (toConfig (effective true ls)) req ≠ (req.peer, peerScheme req.tls)) :
+    (effective true ls).trust = true ∧
+    ∃ a, req.peer = some a ∧ ∃ e ∈ w, ∃ c, parseCidr e = some c ∧ contains c a = true := by
+  have hl : (merge true ls).list = some w := by rw [effective_list_is_highest_layer_that_sets_it, hwin]
+  have he : (effective true ls).entries = w := by simp [effective, hl]
+  have hu : useForwarded true (toConfig (effective true ls)) req = true := by
+    cases hu : useForwarded true (toConfig (effective true ls)) req with
+    | true => rfl
+    | false => exact absurd (not_used_exposes_peer true _ req hu) h
+  obtain ⟨ht, a, hp, hc⟩ := (forwarded_used_iff _ req).1 hu
+  refine ⟨ht, a, hp, ?_⟩
+  simp only [toConfig, he] at hc
+  rcases hc with h0 | ⟨c, hc, hin⟩
+  · exact absurd (by simpa using h0) hw
+  · obtain ⟨e, hew, hpe⟩ := List.mem_map.1 hc
+    exact ⟨e, hew, c, hpe, hin⟩
+
+/-- With the separators-only patch a raw value that is not blank always yields a non-empty list
+(so the hypothesis `w ≠ []` above holds for everything an operator can write except a blank). -/
+theorem parseItems_nonempty (raw : List Char) (h : (trimSpace raw).isEmpty = false) :
+    parseItems true raw ≠ [] := by
+  have h' : trimSpace raw ≠ [] := by simpa using h
+  cases hs : (splitItems raw).isEmpty with
+  | true => simp [parseItems, hs, h]
+  | false =>
+    have : splitItems raw ≠ [] := by simpa using hs
+    simp [parseItems, hs, this]
+
+/-- **Negation witness 1** (code as it stands; directed case 12): trust and the list `10.0.0.0/8`
+given on the command line only, nothing in the environment — the list is erased, so the peer
+192.0.2.5 (outside 10/8) dictates client IP and scheme; both repaired variants keep the list and
+show the peer. -/
+theorem asis_merge_erases_cli_list :
+    load false false (some true) (some "10.0.0.0/8".toList) [] [] = { trust := true, entries := [] } ∧
+    load true false (some true) (some "10.0.0.0/8".toList) [] []
+      = { trust := true, entries := ["10.0.0.0/8".toList] } ∧
+    (let req : Req := { peer := some (mapped 0xC0000205), tls := false, cf := none,
+                        xff := some (some (mapped 0xC6336407)), xfp := some (some .https) }
+     resolve true (toConfig (load false false (some true) (some "10.0.0.0/8".toList) [] [])) req
+       = (some (mapped 0xC6336407), .https) ∧
+     resolve true (toConfig (load true false (some true) (some "10.0.0.0/8".toList) [] [])) req
+       = (req.peer, .http) ∧
+     Spec.mayDiffer true (Spec.effectiveList [Spec.classify (some "10.0.0.0/8".toList), Spec.classify none])
+       req.peer = false) := by
+  decide
+
+/-- **Negation witness 2** (code as it stands; directed case 13): `PITHOS_TRUSTED_PROXY_CIDRS=","`
+is a configured list without an entry; it becomes the empty list = "trust every proxy". With the
+patch it stays a configured (unparsable) entry and nobody is trusted. -/
+theorem asis_separators_only_means_everyone :
+    load true false none none "true".toList ",".toList = { trust := true, entries := [] } ∧
+    load true true none none "true".toList ",".toList = { trust := true, entries := [",".toList] } ∧
+    (∀ a, trustedProxy true (toConfig (load true false none none "true".toList ",".toList)) (some a) = true) ∧
+    (∀ peer, trustedProxy true (toConfig (load true true none none "true".toList ",".toList)) peer = false) ∧
+    Spec.effectiveList [Spec.classify none, Spec.classify (some ",".toList)] = .configured [] := by
+  refine ⟨by decide, by decide, ?_, ?_, by decide⟩
+  · intro a
+    have : toConfig (load true false none none "true".toList ",".toList) = { trust := true, cidrs := [] } := by
+      decide
+    rw [this]; simp [trustedProxy, usable]
+  · intro peer
+    have : toConfig (load true true none none "true".toList ",".toList) = { trust := true, cidrs := [none] } := by
+      decide
+    rw [this]
+    exact (unusable_list_trusts_nobody _ (by simp) (by simp)).1 peer
+
+/-- Non-vacuity of `settings_end_to_end`: environment list wins over the command-line list; the
+proxy inside the environment's network is believed, the one inside the shadowed command-line
+network is not. -/
+example :
+    let ls := [cliLayer true (some true) (some "10.0.0.0/8".toList),
+               envLayer true [] "192.0.2.0/24 , not-a-cidr".toList]
+    ((ls.map (·.list)).reverse.find? (·.isSome)).getD none
+      = some ["192.0.2.0/24".toList, "not-a-cidr".toList] ∧
+    (let hdr : Req := { peer := some (mapped 0xC0000205), tls := false, cf := none,
+                        xff := some (some (mapped 0xC6336407)), xfp := none }
+     resolve true (toConfig (effective true ls)) hdr = (some (mapped 0xC6336407), .http) ∧
+     resolve true (toConfig (effective true ls)) { hdr with peer := some (mapped 0x0A010203) }
+       = (some (mapped 0x0A010203), .http)) := by
+  decide
+
+end Settings
 
 end Pithos.C32
